@@ -346,6 +346,8 @@ type HCase struct {
 	N      int          `json:"n"`      // scte35_N
 	Minute int64        `json:"minute"` // first wall-clock minute (since AST) covered
 	AnnexI bool         `json:"annexI,omitempty"`
+	// Chunked: low-latency delivery (ato = 3/4, chunkdur = 1/4 of the segment); the segments are requested after their end
+	Chunked bool `json:"chunked,omitempty"`
 }
 
 // mkURL is ls.URL plus, for Annex I cases, the query parameters the annexI_ option announces (the server checks them)
@@ -372,6 +374,9 @@ func genH(t *rapid.T) (HCase, *env.Env) {
 	}
 	c := HCase{Target: tg, Cfg: cfg, N: rapid.SampledFrom([]int{1, 2, 3, 1, 2, 3, 0, 4, 7}).Draw(t, "N"), AnnexI: rapid.IntRange(0, 3).Draw(t, "annexI") == 0}
 	c.Minute = rapid.SampledFrom([]int64{0, 1, 7, 1589, 1590, 100000}).Draw(t, "minute")
+	if a := tg.Asset; a == "testpic_2s" || a == "testpic_6s" || a == "testpic_8s" {
+		c.Chunked = rapid.IntRange(0, 2).Draw(t, "chunked") == 0
+	}
 	return c, e
 }
 
@@ -386,6 +391,10 @@ func checkH(c HCase, e *env.Env) (*hx.Violation, hinfo) {
 	parts := append(c.Cfg.Parts(), "scte35_"+strconv.Itoa(c.N))
 	if c.AnnexI {
 		parts = append(parts, "annexI_a=1,b=2") // another feature that decorates the video adaptation set
+	}
+	if c.Chunked {
+		segMS := int64(e.Asset.LoopMS) / int64(len(e.Asset.Ref.Segs))
+		parts = append(parts, "ato_"+refmodel.FormatMS(segMS*3/4), "chunkdur_"+refmodel.FormatMS(segMS/4))
 	}
 	vrep := e.Asset.Ref
 	if vrep.ContentType != "video" {
@@ -554,6 +563,9 @@ func TestC13HTTP(t *testing.T) {
 		cls := []string{"http", "http:N=" + strconv.Itoa(c.N)}
 		if inf.rejected {
 			cls = append(cls, "http:rejected-N")
+		}
+		if c.Chunked {
+			cls = append(cls, "http:chunked-delivery")
 		}
 		if inf.spansMinute {
 			cls = append(cls, "http:segment-spans-minute-start")
